@@ -52,7 +52,7 @@ def cfg_term(case):
         cZ(c["b"]["reserve"]), cZ(g_a), cZ(g_b), cZ(ia["fee_per_kw"]))
 
 
-def step_terms(case, with_reload=True, with_cut=True):
+def step_terms(case, with_reload=True, with_cut=True, expect_fail=False):
     """Returns (terms, n_used, truncated_reason).  The trace is cut short at the
     first step the model does not cover (protocol error on delivery etc.); what
     that means for the property is decided by the python predicates."""
@@ -93,6 +93,11 @@ def step_terms(case, with_reload=True, with_cut=True):
                 t = "TOp (ODeliver %s) Ok" % pb(op[1])
             elif res == "no_pending":
                 t = "TOp (ODeliver %s) ErrNothing" % pb(op[1])
+            elif expect_fail and st is case["steps"][-1] and \
+                    st.get("extra", {}).get("kind") == "sig":
+                # documented API-hazard witness: the model must ALSO reject this
+                # retransmitted signature (C03_free_rev_refuted)
+                t = "TOp (ODeliver %s) ErrSigInvalid" % pb(op[1])
             else:
                 reason = "deliver %s error %s" % (st.get("extra", {}).get("kind"), res)
                 break
